@@ -1077,6 +1077,15 @@ class Machine:
                             wv = c[1] if c[0] == j else W("zero", tag="hist")
                     sel = getattr(w, "selected_by", True) if isinstance(w, Arr) else True
                     self.effects.append(("fill", child.slot, wv, m, sel))
+                    if m == "_numpy" and len(args) > 2 and isinstance(args[2], list) and len(args[2]) == 1:
+                        # the shared shape cell: a Count with a scalar weight multiplies by shape[0] and counts the weight ONCE when it is
+                        # still None; any other child evaluates its quantity and thereby fixes the batch length
+                        cell = args[2]
+                        if self.child_is_count(child):
+                            if not isinstance(w, Arr):
+                                self.effects.append(("count-length", child.slot, cell[0] is not None))
+                        elif cell[0] is None:
+                            cell[0] = Opaque("n")
                     return None
                 if m in ("zero", "copy"):
                     self.fresh_counter = getattr(self, "fresh_counter", 0) + 1
@@ -1257,7 +1266,7 @@ class Machine:
                 r = isinstance(v, dict)
             elif last == "Count":
                 if isinstance(v, Child):
-                    r = bool(self.knobs.get("children_count", False))
+                    r = self.child_is_count(v)
                 else:
                     r = False
             elif last == "Container":
@@ -1269,6 +1278,12 @@ class Machine:
             if r is UNK:
                 res = UNK
         return res
+
+    def child_is_count(self, child):
+        k = self.knobs.get("children_count", False)
+        if k == "mixed":
+            return "[0]" in child.slot        # the first child of a sequence is a Count, its siblings are not
+        return bool(k)
 
     def to_bucket(self, v):
         if isinstance(v, Arith):
